@@ -58,6 +58,14 @@ RICH = {"co_argcount": 2, "co_posonlyargcount": 1, "co_kwonlyargcount": 1, "co_n
 RICH_VARS = [b"a", b"b", b"c", b"d", b"e"]
 
 
+def code_for(ver, rich):
+    """the co_code of the wrapper.  Any bytes do for the marshal format; but CPython 3.13's co_code getter rewrites bytes that are not
+    instructions it knows, so the wrapper of a 3.13 stream uses real 3.13 instructions (RESUME 0; RETURN_CONST 0; NOP) that come back as written"""
+    if tuple(ver[:2]) >= (3, 13):
+        return b"\x95\x00g\x00\x1e\x00" if rich else b"\x95\x00g\x00"
+    return b"d\x00S\x00d\x01" if rich else b"d\x00S\x00"
+
+
 def wrap(ver, magic, vbytes, vtoks, rich=False, code=None):
     par = par_of(ver, magic)
     VALUES = RICH if rich else globals()["VALUES"]
@@ -72,7 +80,7 @@ def wrap(ver, magic, vbytes, vtoks, rich=False, code=None):
             out += struct.pack("<i" if wide else "<h", VALUES[f])
             toks.append(intlimbs(VALUES[f]))
         elif f == "co_code":
-            b, t = s_obj(par, code if code is not None else (b"d\x00S\x00d\x01" if rich else b"d\x00S\x00"))
+            b, t = s_obj(par, code if code is not None else code_for(ver, rich))
             out += b
             toks.append(t)
         elif f == "co_consts":
